@@ -9,6 +9,7 @@ import (
 	"math"
 	"os"
 	"path/filepath"
+	"reflect"
 	"runtime"
 	"sort"
 	"strings"
@@ -122,7 +123,7 @@ func runScript(ctx context.Context, rt wazero.Runtime, cm wazero.CompiledModule)
 			}
 		}
 	}
-	if mem := mod.Memory(); mem != nil {
+	if mem := mod.Memory(); mem != nil && !reflect.ValueOf(mem).IsNil() { // Memory() of a memory-less module is a typed nil
 		sz := mem.Size()
 		if b, ok := mem.Read(0, sz); ok {
 			fmt.Fprintf(&sb, "memory %d %s\n", sz, shaHex(b)[:16])
@@ -243,9 +244,11 @@ func doRef(j refJob) (o refOut) {
 	// record the hook points of one uncrashed Add
 	var mu sync.Mutex
 	verifhook.SetHandlers(func(name string) {
-		mu.Lock()
-		o.Points = append(o.Points, name)
-		mu.Unlock()
+		if strings.HasPrefix(name, "filecache.") { // other properties' points share the handler
+			mu.Lock()
+			o.Points = append(o.Points, name)
+			mu.Unlock()
+		}
 	}, func(name string, r io.Reader) io.Reader {
 		mu.Lock()
 		o.Points = append(o.Points, name)
